@@ -270,15 +270,15 @@ PROPS['C15'] = {
 for _u in PROPS['C15']['units']:
     PROPS['C07']['units'].append(_u)
 PROPS['C12'] = {
-    'units': ['fmt_go', 'fmt_swift', 'fmt_python', 'contains', 'opt_python', 'pyclass'],
+    'units': ['fmt_go', 'fmt_swift', 'fmt_python', 'fmt_ts', 'contains', 'opt_python', 'pyclass', 'opt_ts'],
     'title': 'every helper name typeshare introduces is defined or imported (bookkeeping kernel)',
-    'technique': 'additional Verus postconditions on the type-expression translators of Go, Swift and Python (the same verbatim extraction as C05): '
+    'technique': 'additional Verus postconditions on the type-expression translators of Go, Swift, Python and TypeScript (the same verbatim extraction as C05): '
                  'whenever the translation reaches a built-in type whose spelling uses a helper, the helper has been recorded; plus contracts on '
                  'RustType::contains_type / SpecialRustType::contains_type / id, on which Scala\'s alias decision rests; plus Verus contracts on the Python class '
                  'writers Python::write_field, add_common_imports (verbatim, unit opt_python) and write_struct, add_type_var, handle_model_config (verbatim, unit pyclass): every pydantic / '
                  'typing name their text uses has been recorded for the import block',
     'level_text': 'For every type expression, configuration and generic scope: after format_type answers Ok, Go has recorded the import of "time" if '
-                  'the expression reaches OffsetDateTime; Swift has raised the CodableVoid flag if it reaches (); Python has recorded typing.List / '
+                  'the expression reaches OffsetDateTime; TypeScript has recorded `Date` for the ReviverFunc / ReplacerFunc footer if it reaches OffsetDateTime; Swift has raised the CodableVoid flag if it reaches (); Python has recorded typing.List / '
                   'typing.Optional / typing.Dict / datetime.datetime for every sequence / Option / map / OffsetDateTime it reaches - "reaches" meaning '
                   'at any depth and not hidden behind a mapped type - and recorded helpers are never lost again. contains_type(name) is true whenever a '
                   'built-in type spelled `name` occurs anywhere in the expression (lemma), which is what Scala asks for each unsigned integer name. Python classes: '
@@ -286,9 +286,10 @@ PROPS['C12'] = {
                   '(TypeVar block); after write_field answers Ok, pydantic.Field is recorded whenever the member is written with `= Field(..)` (aliased, Option or '
                   'serde(default)), typing.Optional whenever the writer wraps the type in `Optional[..]`, typing.Annotated / pydantic.BeforeValidator / '
                   'PlainSerializer whenever the type text has a custom (de)serialiser; handle_model_config records pydantic.ConfigDict whenever it writes the '
-                  '`model_config = ConfigDict(..)` line; none of these functions loses a recorded import or type variable.',
-    'level_note': 'Kernel at the level of what is RECORDED. That the recorded imports / the CodableVoid definition / the Scala package object / '
-                  'TypeScript\'s reviver footer are then WRITTEN, that names used on other paths (Python enums: Enum, Literal, Union and their TypeVars; Go json.) are imported, '
+                  '`model_config = ConfigDict(..)` line; none of these functions loses a recorded import or type variable. TypeScript::end_file (verbatim, unit opt_ts): '
+                  'whenever a type text has been recorded for the reviver / replacer helpers, the text it appends contains the declaration `export const ReviverFunc` (taken from the literal).',
+    'level_note': 'Kernel at the level of what is RECORDED (and, for TypeScript\'s footer, that the recorded flag makes end_file write the declaration). That the recorded imports / '
+                  'the CodableVoid definition / the Scala package object are then WRITTEN, that names used on other paths (Python enums: Enum, Literal, Union and their TypeVars; Go json.) are imported, '
                   'and Scala::unsigned_integer_used\'s collection of the file\'s types (iterator chains) are not proved: bounded stand-in helper-search. '
                   'Assumed: add_import / add_imports record and only add (entry-API stubs); AtomicBool::store modelled as an update (sequential code).',
     'design_ref': 'DESIGN.md section 10.12',
